@@ -116,6 +116,8 @@ type Violation struct {
 // world
 
 type CmdRec struct {
+	Replica  bool // the receiving node was a replica in the topology current at that time
+	ReadOnly bool // the connection had been switched to READONLY before this command
 	CR    int // total complete replies all clients had received when this command arrived
 	Seq   int
 	Addr  string
@@ -665,6 +667,13 @@ func (w *World) dial(addr string) *vsys.Sock {
 	}
 	node := w.Sc.node(addr)
 	if node == nil {
+		for i := range w.Topo {
+			if w.Topo[i].Addr == addr {
+				node = &w.Topo[i]
+			}
+		}
+	}
+	if node == nil {
 		return nil // nobody listens there
 	}
 	s := vsys.NewSock("b@" + addr)
@@ -746,7 +755,7 @@ func (w *World) feed(bc *BConn, b []byte) {
 		for _, c := range w.Clients {
 			cr += c.NReplies
 		}
-		rec := CmdRec{CR: cr, Seq: len(w.Cmds), Addr: bc.Addr, Conn: bc.ID, Raw: raw, Args: cp, Reply: reply}
+		rec := CmdRec{Replica: w.isReplicaNow(bc.Addr), ReadOnly: bc.ReadOnly, CR: cr, Seq: len(w.Cmds), Addr: bc.Addr, Conn: bc.ID, Raw: raw, Args: cp, Reply: reply}
 		bc.Log = append(bc.Log, rec)
 		w.Cmds = append(w.Cmds, rec)
 		if hold < 0 {
@@ -973,6 +982,20 @@ func (w *World) Fingerprint() string {
 	}
 	fmt.Fprintf(&sb, "p=%v l=%v h=%v", w.Panic != nil, w.Livelock, w.HorizonHit)
 	return sb.String()
+}
+
+// isReplicaNow: role of addr in the topology last injected.
+func (w *World) isReplicaNow(addr string) bool {
+	nodes := w.Sc.Nodes
+	if w.Topo != nil {
+		nodes = w.Topo
+	}
+	for _, n := range nodes {
+		if n.Addr == addr {
+			return n.Master != ""
+		}
+	}
+	return false
 }
 
 // FaultsDone: every scripted fault has been injected.
